@@ -58,6 +58,7 @@ static void asm_build_index_tables() {
 assemblyline_t asm_create_instance(uint8_t *buffer, int len) {
 
   assemblyline_t al = malloc(sizeof(struct assemblyline));
+  FAIL_SYS(al == NULL, "failed to allocate instance\n", NULL);
   al->offset = 0;
   al->assembly_opt = DEFAULT;
   // allocate buffer internally if not directly given
@@ -238,9 +239,12 @@ int asm_create_bin_file(assemblyline_t al, const char *file_name) {
 
   FAIL_IF_MSG(write_ptr == NULL, "failed to create binary file")
 
-  fwrite(buffer, sizeof(uint8_t), len, write_ptr);
+  size_t written = fwrite(buffer, sizeof(uint8_t), len, write_ptr);
 
-  fclose(write_ptr);
+  int close_failed = fclose(write_ptr);
+
+  FAIL_IF_MSG(written != (size_t)len || close_failed,
+              "failed to write binary file")
 
   return EXIT_SUCCESS;
 }
